@@ -10,8 +10,8 @@ CONSTANTS
   MutKinds = {"prune", "delete", "append"}
   Faults = TRUE
   Defect_SendBlocksRecv = TRUE
-  Fix_DoneOnce = FALSE
-  Fix_StreamClosure = FALSE
+  Fix_DoneOnce = TRUE
+  Fix_StreamClosure = TRUE
 INVARIANTS
   C19_ExactDelivery
   C19_HeightsEqualAfterIngest
@@ -21,5 +21,6 @@ INVARIANTS
   C20_DoneAtEnd
   C20_NoStrayMessage
   C21_TraceNoOtherStuck
+  C21_NoSpin
 POSTCONDITION TraceAccepted
 CHECK_DEADLOCK FALSE
